@@ -462,7 +462,7 @@ impl Rest {
             let mut w = self.env.borrow_mut();
             for b in &got {
                 let state_after = w.contents.clone();
-                w.msgs.push(Msg { diffs: b.iter().map(to_diffd).collect(), state_after });
+                w.msgs.push(Msg { diffs: b.iter().map(to_diffd).collect(), state_after, commit: matches!(expected, Expected::Commit) });
             }
         }
         let a = self.auditor.as_ref().unwrap();
@@ -916,7 +916,8 @@ impl Rest {
 
     // ------------------------------------------------------------------ transactions
 
-    fn run_tx(&mut self, mut tx: ObservableVectorTransaction<'_, Elem>) {
+    /// Returns true if the transaction was committed.
+    fn run_tx(&mut self, mut tx: ObservableVectorTransaction<'_, Elem>) -> bool {
         self.count("ops.tx_begin");
         let pre = self.model.clone();
         let mut work = pre.clone();
@@ -928,7 +929,7 @@ impl Rest {
                 self.faults_fired += 1;
                 drop(tx);
                 self.after_producer_step(Expected::Nothing, None, &["C07"]);
-                return;
+                return false;
             };
             match &step {
                 s if s.is_writer_op() => {
@@ -939,7 +940,7 @@ impl Rest {
                         ops_in_tx += 1;
                     }
                     if self.failed() {
-                        return;
+                        return false;
                     }
                     // C07: invisible until commit
                     self.after_producer_step(Expected::Nothing, None, &["C07"]);
@@ -947,7 +948,7 @@ impl Rest {
                 Step::TravBegin { for_each } => {
                     self.run_trav_tx(&mut tx, &mut work, *for_each);
                     if self.failed() {
-                        return;
+                        return false;
                     }
                 }
                 Step::TxRollback => {
@@ -961,7 +962,7 @@ impl Rest {
                     let got = tx.snapshot();
                     if got != work {
                         self.violate(&["C07"], "rollback_contents", -1, format!("after rollback the transaction shows {:?}, expected the pre-transaction contents {:?}", got, work));
-                        return;
+                        return false;
                     }
                     self.after_producer_step(Expected::Nothing, None, &["C07"]);
                 }
@@ -971,8 +972,13 @@ impl Rest {
                         self.count("probe.commit_multi_op");
                     }
                     tx.commit();
+                    if work != self.model {
+                        let mut w = self.env.borrow_mut();
+                        let j = w.boundaries.len();
+                        w.commit_bidx.push(j);
+                    }
                     self.after_producer_step(Expected::Commit, Some(work), &["C07"]);
-                    return;
+                    return true;
                 }
                 Step::TxDrop => {
                     self.count("fault.F3_tx_dropped");
@@ -982,14 +988,14 @@ impl Rest {
                     }
                     drop(tx);
                     self.after_producer_step(Expected::Nothing, None, &["C07"]);
-                    return;
+                    return false;
                 }
                 Step::TxBegin | Step::Subscribe(_) | Step::DropVector | Step::TravEnd => {}
                 s if s.is_trav_decision() => {}
                 s => self.exec_aux_step(s),
             }
             if self.failed() {
-                return;
+                return false;
             }
         }
     }
@@ -1255,6 +1261,7 @@ pub fn run_case(case: &Case) -> RunRecord {
     let env: Env = Rc::new(RefCell::new(WorldShared {
         contents: Vec::new(),
         boundaries: vec![Vec::new()],
+        commit_bidx: Vec::new(),
         dropped: false,
         capacity: cfg.capacity.max(1),
         auditor_on: cfg.auditor,
@@ -1365,9 +1372,14 @@ impl Rest {
                 Step::TxBegin => {
                     let Some(v) = vec.as_mut() else { continue };
                     let tx = v.transaction();
-                    self.run_tx(tx);
+                    let committed = self.run_tx(tx);
                     if !self.failed() {
-                        self.check_vec_contents(v, "the transaction ended", &["C07"]);
+                        if committed {
+                            // what the transaction's mutators did reaches the vector only here (C17: "directly and inside transactions")
+                            self.check_vec_contents(v, "the transaction was committed", &["C07", "C17"]);
+                        } else {
+                            self.check_vec_contents(v, "the transaction was abandoned", &["C07"]);
+                        }
                     }
                 }
                 Step::Subscribe(spec) => {
